@@ -71,12 +71,12 @@ func init() { Register("natsdrain", natsdrainHarness) }
 
 func natsdrainHarness(rc *RunCtx) {
 	tp := rc.Tape
-	s := rc.NewSim(40000, 10*time.Minute)
+	s := rc.NewSim(rc.Scale(40000, 120000), 10*time.Minute)
 	h := &drainHarness{rc: rc, s: s, reqs: map[int]*drainReq{}}
 	b := NewSimBroker(rc)
-	workers := 1 + tp.Intn("cfg", 4)
-	qlen := 1 + tp.Intn("cfg", 8)
-	nreq := 1 + tp.Intn("cfg", 30)
+	workers := 1 + tp.Intn("cfg", rc.Scale(4, 6))
+	qlen := 1 + tp.Intn("cfg", rc.Scale(8, 16))
+	nreq := 1 + tp.Intn("cfg", rc.Scale(30, 80))
 	nafter := tp.Intn("cfg", 4)
 	stopAfter := tp.Intn("cfg", nreq+1) // Stop is invoked once this many requests were handed to the server's connection
 	durChoices := []time.Duration{0, 0, time.Millisecond, 5 * time.Millisecond, 20 * time.Millisecond, 50 * time.Millisecond}
